@@ -17,11 +17,14 @@ B(x) == IF x THEN 1 ELSE 0
 
 Zeros(n) == [k \in 1..n |-> 0]
 Rep(x, n) == [k \in 1..n |-> x]
-Slice(s, a, b) == SubSeq(s, a, b)                   \* 1-based inclusive, empty when b < a
-Drop(s, n) == SubSeq(s, n + 1, Len(s))
-Take(s, n) == SubSeq(s, 1, n)
+Slice(s, a, b) ==                                    \* 1-based inclusive, clipped to s, empty when b < a
+  LET hi == IF b > Len(s) THEN Len(s) ELSE b
+      lo == IF a < 1 THEN 1 ELSE a
+  IN IF hi < lo THEN <<>> ELSE SubSeq(s, lo, hi)
+Drop(s, n) == Slice(s, n + 1, Len(s))
+Take(s, n) == Slice(s, 1, n)
 Last(s) == s[Len(s)]
-Front(s) == SubSeq(s, 1, Len(s) - 1)
+Front(s) == Slice(s, 1, Len(s) - 1)
 
 RECURSIVE SumFrom(_, _, _)
 SumFrom(s, k, acc) == IF k > Len(s) THEN acc ELSE SumFrom(s, k + 1, acc + s[k])
